@@ -1,6 +1,7 @@
 package run
 
 import (
+	"reflect"
 	"context"
 	"errors"
 	"fmt"
@@ -118,6 +119,10 @@ func Drain(iter gojq.Iter, ctx *PollCtx, maxOut int, recordPolls bool) (tr Trace
 			return
 		}
 		if Huge(v, 200000) {
+			if Cyclic(v) {
+				tr.End, tr.Panic = EndPanic, ErrCyclic
+				return
+			}
 			// a value whose unfolding is huge (shared structure duplicated by the program): comparing it
 			// would take longer than computing it; treat the rest as an inconclusive tail
 			tr.End = EndBudget
@@ -363,6 +368,59 @@ func TraceDesc(t Trace) string {
 	sb.WriteString(endDesc(t))
 	return sb.String()
 }
+
+// Cyclic reports whether v contains itself: some container is reachable from one of its own elements. gojq values are
+// trees (possibly sharing subtrees); a cycle can only come from a write through an alias, makes the value infinite for
+// every consumer (encoders, comparison, the program's next step), and is reported as a defect, never as a large value.
+// A container on the current descent path is identified by its backing store: data pointer and length for a slice
+// (a cell that is reached again holds the same header), the map pointer for an object.
+func Cyclic(v any) bool {
+	type id struct {
+		p uintptr
+		n int
+	}
+	onPath := map[id]bool{}
+	var walk func(v any) bool
+	walk = func(v any) bool {
+		switch x := v.(type) {
+		case []any:
+			if len(x) == 0 {
+				return false
+			}
+			k := id{reflect.ValueOf(x).Pointer(), len(x)}
+			if onPath[k] {
+				return true
+			}
+			onPath[k] = true
+			for _, e := range x {
+				if walk(e) {
+					return true
+				}
+			}
+			delete(onPath, k)
+		case map[string]any:
+			if len(x) == 0 {
+				return false
+			}
+			k := id{reflect.ValueOf(x).Pointer(), -1}
+			if onPath[k] {
+				return true
+			}
+			onPath[k] = true
+			for _, e := range x {
+				if walk(e) {
+					return true
+				}
+			}
+			delete(onPath, k)
+		}
+		return false
+	}
+	return walk(v)
+}
+
+// ErrCyclic is the Panic text prefix of a trace that ended because the program emitted a cyclic value.
+const ErrCyclic = "the program emitted a cyclic value (a container that contains itself)"
 
 // Huge reports whether the tree unfolding of v has more than limit nodes.
 func Huge(v any, limit int) bool {
